@@ -30,6 +30,9 @@ class BoundaryFace:
         if (type(a) is not np.ndarray) or (type(b) is not np.ndarray)\
             or (type(c) is not np.ndarray):
                 raise TypeError('a, b, c must be np.ndarray')
+        # integer-typed storage would truncate coefficients assigned later
+        a, b, c = (x.astype(float) if x.dtype.kind in 'biu' else x
+                   for x in (a, b, c))
         self._a = TrackedArray(a)
         self._b = TrackedArray(b)
         self._c = TrackedArray(c)
